@@ -17,8 +17,8 @@ pub(crate) fn scalar_table() -> ResolvedF32Kernels {
 // C17 O17.1 — the x86 kernels stay inside their input slices for every length, including lengths
 // that are not a multiple of the SIMD width.  Inputs live in exact-size heap allocations, so an
 // access past `len` is an access past the object and is reported by CBMC's pointer checks.
-// Arithmetic intrinsics Kani cannot model (FMA, AVX-512 arithmetic) are stubbed to return their
-// accumulator operand: values are irrelevant to bounds.  Loads/stores are NOT stubbed.
+// Arithmetic intrinsics (add/sub/mul/FMA; Kani cannot model FMA and AVX-512 arithmetic at all) are stubbed
+// to return their first/accumulator operand: values are irrelevant to bounds.  Loads/stores are NOT stubbed.
 // -------------------------------------------------------------------------------------------
 #[cfg(target_arch = "x86_64")]
 pub(crate) mod x86 {
@@ -41,25 +41,31 @@ pub(crate) mod x86 {
         c
     }
 
-    fn exact_vec(len: usize, max: usize) -> Vec<f32> {
-        // exact-size allocation (capacity == len) with arbitrary finite-or-not contents
-        let mut v: Vec<f32> = Vec::with_capacity(len);
-        let mut i = 0;
-        while i < max {
-            if i < len {
-                v.push(kani::any());
-            }
-            i += 1;
-        }
-        v
+    pub fn add128(a: __m128, _b: __m128) -> __m128 {
+        a
+    }
+    pub fn add256(a: __m256, _b: __m256) -> __m256 {
+        a
+    }
+    pub fn sub256(a: __m256, _b: __m256) -> __m256 {
+        a
+    }
+
+    /// A slice of `len` floats that ENDS exactly at the end of a heap object of `max` floats: a read past
+    /// `len` is a read past the object (CBMC pointer check).  Object size and contents are concrete; only
+    /// the slice start (max - len) is symbolic, which keeps CBMC's memory model small.  Kernels do not
+    /// branch on data, so which addresses are touched depends on `len` only.
+    fn tail_slice(buf: &Vec<f32>, len: usize) -> &[f32] {
+        let n = buf.len();
+        &buf[n - len..]
     }
 
     pub fn binary_body(kernel: fn(&[f32], &[f32]) -> f32, max: usize, witness: bool) {
         let len: usize = kani::any();
         kani::assume(len >= 1 && len <= max);
-        let a = exact_vec(len, max);
-        let b = exact_vec(len, max);
-        let r = kernel(&a, &b);
+        let ba = vec![0.5f32; max];
+        let bb = vec![0.25f32; max];
+        let r = kernel(tail_slice(&ba, len), tail_slice(&bb, len));
         if witness {
             kani::cover!(len == max, "longest length reachable");
             kani::cover!(len == 1, "shortest length reachable");
@@ -70,8 +76,8 @@ pub(crate) mod x86 {
     pub fn unary_body(kernel: fn(&[f32]) -> f32, max: usize, witness: bool) {
         let len: usize = kani::any();
         kani::assume(len >= 1 && len <= max);
-        let a = exact_vec(len, max);
-        let r = kernel(&a);
+        let ba = vec![0.5f32; max];
+        let r = kernel(tail_slice(&ba, len));
         if witness {
             kani::cover!(len == max, "longest length reachable");
             kani::cover!(len == 1, "shortest length reachable");
@@ -82,9 +88,9 @@ pub(crate) mod x86 {
     pub fn triple_body(kernel: fn(&[f32], &[f32]) -> (f32, f32, f32), max: usize, witness: bool) {
         let len: usize = kani::any();
         kani::assume(len >= 1 && len <= max);
-        let a = exact_vec(len, max);
-        let b = exact_vec(len, max);
-        let r = kernel(&a, &b);
+        let ba = vec![0.5f32; max];
+        let bb = vec![0.25f32; max];
+        let r = kernel(tail_slice(&ba, len), tail_slice(&bb, len));
         if witness {
             kani::cover!(len == max, "longest length reachable");
             kani::cover!(len == 1, "shortest length reachable");
@@ -102,6 +108,11 @@ macro_rules! c17_kernel {
         #[kani::stub(std::arch::x86_64::_mm512_fmadd_ps, crate::simd::verif_proofs::x86::fmadd512)]
         #[kani::stub(std::arch::x86_64::_mm512_add_ps, crate::simd::verif_proofs::x86::add512)]
         #[kani::stub(std::arch::x86_64::_mm512_sub_ps, crate::simd::verif_proofs::x86::sub512)]
+        #[kani::stub(std::arch::x86_64::_mm256_add_ps, crate::simd::verif_proofs::x86::add256)]
+        #[kani::stub(std::arch::x86_64::_mm256_sub_ps, crate::simd::verif_proofs::x86::sub256)]
+        #[kani::stub(std::arch::x86_64::_mm_add_ps, crate::simd::verif_proofs::x86::add128)]
+        #[kani::stub(std::arch::x86_64::_mm_mul_ps, crate::simd::verif_proofs::x86::add128)]
+        #[kani::stub(std::arch::x86_64::_mm_sub_ps, crate::simd::verif_proofs::x86::add128)]
         fn $name() {
             x86::$body($entry, $max, false);
         }
@@ -112,22 +123,39 @@ macro_rules! c17_kernel {
         #[kani::stub(std::arch::x86_64::_mm512_fmadd_ps, crate::simd::verif_proofs::x86::fmadd512)]
         #[kani::stub(std::arch::x86_64::_mm512_add_ps, crate::simd::verif_proofs::x86::add512)]
         #[kani::stub(std::arch::x86_64::_mm512_sub_ps, crate::simd::verif_proofs::x86::sub512)]
+        #[kani::stub(std::arch::x86_64::_mm256_add_ps, crate::simd::verif_proofs::x86::add256)]
+        #[kani::stub(std::arch::x86_64::_mm256_sub_ps, crate::simd::verif_proofs::x86::sub256)]
+        #[kani::stub(std::arch::x86_64::_mm_add_ps, crate::simd::verif_proofs::x86::add128)]
+        #[kani::stub(std::arch::x86_64::_mm_mul_ps, crate::simd::verif_proofs::x86::add128)]
+        #[kani::stub(std::arch::x86_64::_mm_sub_ps, crate::simd::verif_proofs::x86::add128)]
         fn $wname() {
             x86::$body($entry, $max, true);
         }
     };
 }
 
-// W = 4 (SSE2): lengths 1 ..= 4*4 + 4 + 3 = 23;  W = 8 (AVX2): 1 ..= 43;  W = 16 (AVX-512): 1 ..= 83
-c17_kernel!(c17_o1_dot_sse2, c17_o1_dot_sse2__witness, binary_body, dot_f32_sse2_entry, 23, 25);
-c17_kernel!(c17_o1_sumsq_sse2, c17_o1_sumsq_sse2__witness, unary_body, sum_squares_f32_sse2_entry, 23, 25);
-c17_kernel!(c17_o1_l2_sse2, c17_o1_l2_sse2__witness, binary_body, l2_distance_sq_f32_sse2_entry, 23, 25);
-c17_kernel!(c17_o1_dotnorms_sse2, c17_o1_dotnorms_sse2__witness, triple_body, dot_and_norms_f32_sse2_entry, 23, 25);
-c17_kernel!(c17_o1_dot_avx2, c17_o1_dot_avx2__witness, binary_body, dot_f32_avx2_entry, 43, 45);
-c17_kernel!(c17_o1_sumsq_avx2, c17_o1_sumsq_avx2__witness, unary_body, sum_squares_f32_avx2_entry, 43, 45);
-c17_kernel!(c17_o1_l2_avx2, c17_o1_l2_avx2__witness, binary_body, l2_distance_sq_f32_avx2_entry, 43, 45);
-c17_kernel!(c17_o1_dotnorms_avx2, c17_o1_dotnorms_avx2__witness, triple_body, dot_and_norms_f32_avx2_entry, 43, 45);
-c17_kernel!(c17_o1_dot_avx512, c17_o1_dot_avx512__witness, binary_body, dot_f32_avx512_entry, 83, 85);
-c17_kernel!(c17_o1_sumsq_avx512, c17_o1_sumsq_avx512__witness, unary_body, sum_squares_f32_avx512_entry, 83, 85);
-c17_kernel!(c17_o1_l2_avx512, c17_o1_l2_avx512__witness, binary_body, l2_distance_sq_f32_avx512_entry, 83, 85);
-c17_kernel!(c17_o1_dotnorms_avx512, c17_o1_dotnorms_avx512__witness, triple_body, dot_and_norms_f32_avx512_entry, 83, 85);
+// quick: lengths 1 ..= 2W+3 (single-chunk loop twice + every tail length); *_full (thorough): 1 ..= 4W+W+3 (also the 4x-unrolled loop)
+c17_kernel!(c17_o1_dot_sse2, c17_o1_dot_sse2__witness, binary_body, dot_f32_sse2_entry, 11, 13);
+c17_kernel!(c17_o1_dot_sse2_full, c17_o1_dot_sse2_full__witness, binary_body, dot_f32_sse2_entry, 23, 25);
+c17_kernel!(c17_o1_sumsq_sse2, c17_o1_sumsq_sse2__witness, unary_body, sum_squares_f32_sse2_entry, 11, 13);
+c17_kernel!(c17_o1_sumsq_sse2_full, c17_o1_sumsq_sse2_full__witness, unary_body, sum_squares_f32_sse2_entry, 23, 25);
+c17_kernel!(c17_o1_l2_sse2, c17_o1_l2_sse2__witness, binary_body, l2_distance_sq_f32_sse2_entry, 11, 13);
+c17_kernel!(c17_o1_l2_sse2_full, c17_o1_l2_sse2_full__witness, binary_body, l2_distance_sq_f32_sse2_entry, 23, 25);
+c17_kernel!(c17_o1_dotnorms_sse2, c17_o1_dotnorms_sse2__witness, triple_body, dot_and_norms_f32_sse2_entry, 11, 13);
+c17_kernel!(c17_o1_dotnorms_sse2_full, c17_o1_dotnorms_sse2_full__witness, triple_body, dot_and_norms_f32_sse2_entry, 23, 25);
+c17_kernel!(c17_o1_dot_avx2, c17_o1_dot_avx2__witness, binary_body, dot_f32_avx2_entry, 19, 21);
+c17_kernel!(c17_o1_dot_avx2_full, c17_o1_dot_avx2_full__witness, binary_body, dot_f32_avx2_entry, 43, 45);
+c17_kernel!(c17_o1_sumsq_avx2, c17_o1_sumsq_avx2__witness, unary_body, sum_squares_f32_avx2_entry, 19, 21);
+c17_kernel!(c17_o1_sumsq_avx2_full, c17_o1_sumsq_avx2_full__witness, unary_body, sum_squares_f32_avx2_entry, 43, 45);
+c17_kernel!(c17_o1_l2_avx2, c17_o1_l2_avx2__witness, binary_body, l2_distance_sq_f32_avx2_entry, 19, 21);
+c17_kernel!(c17_o1_l2_avx2_full, c17_o1_l2_avx2_full__witness, binary_body, l2_distance_sq_f32_avx2_entry, 43, 45);
+c17_kernel!(c17_o1_dotnorms_avx2, c17_o1_dotnorms_avx2__witness, triple_body, dot_and_norms_f32_avx2_entry, 19, 21);
+c17_kernel!(c17_o1_dotnorms_avx2_full, c17_o1_dotnorms_avx2_full__witness, triple_body, dot_and_norms_f32_avx2_entry, 43, 45);
+c17_kernel!(c17_o1_dot_avx512, c17_o1_dot_avx512__witness, binary_body, dot_f32_avx512_entry, 35, 37);
+c17_kernel!(c17_o1_dot_avx512_full, c17_o1_dot_avx512_full__witness, binary_body, dot_f32_avx512_entry, 83, 85);
+c17_kernel!(c17_o1_sumsq_avx512, c17_o1_sumsq_avx512__witness, unary_body, sum_squares_f32_avx512_entry, 35, 37);
+c17_kernel!(c17_o1_sumsq_avx512_full, c17_o1_sumsq_avx512_full__witness, unary_body, sum_squares_f32_avx512_entry, 83, 85);
+c17_kernel!(c17_o1_l2_avx512, c17_o1_l2_avx512__witness, binary_body, l2_distance_sq_f32_avx512_entry, 35, 37);
+c17_kernel!(c17_o1_l2_avx512_full, c17_o1_l2_avx512_full__witness, binary_body, l2_distance_sq_f32_avx512_entry, 83, 85);
+c17_kernel!(c17_o1_dotnorms_avx512, c17_o1_dotnorms_avx512__witness, triple_body, dot_and_norms_f32_avx512_entry, 35, 37);
+c17_kernel!(c17_o1_dotnorms_avx512_full, c17_o1_dotnorms_avx512_full__witness, triple_body, dot_and_norms_f32_avx512_entry, 83, 85);
